@@ -511,7 +511,10 @@ func changeStoreMapping(oldMapping, newMapping mapping.IndexMapping, oldStore, n
 		inLowerBound := oldMapping.LowerBound(index) * scaleFactor
 		inHigherBound := oldMapping.LowerBound(index+1) * scaleFactor
 		inSize := inHigherBound - inLowerBound
-		for outIndex := newMapping.Index(inLowerBound); newMapping.LowerBound(outIndex) < inHigherBound; outIndex++ {
+		// Because of rounding errors, the index that the new mapping computes
+		// for the lower bound can be off by one in either direction: start one
+		// bin lower, bins that do not intersect are skipped.
+		for outIndex := newMapping.Index(inLowerBound) - 1; newMapping.LowerBound(outIndex) < inHigherBound; outIndex++ {
 			outLowerBound := newMapping.LowerBound(outIndex)
 			outHigherBound := newMapping.LowerBound(outIndex + 1)
 			lowerIntersectionBound := math.Max(outLowerBound, inLowerBound)
